@@ -20,6 +20,22 @@ def main():
     from vmon.par_common import materialise
 
     items, table = materialise(case.get("item_kind", "dict"), case["items"])
+    amb = case.get("ambient") or {}
+    if amb.get("logging"):
+        # caller-owned logging configuration (round 8, seed C19-N): silenced globally, per logger, or by a level above CRITICAL
+        import logging
+
+        if amb["logging"] == "disable(CRITICAL)":
+            logging.disable(logging.CRITICAL)
+        elif amb["logging"] == "logger.disabled":
+            for name in ("sketchnu", "sketchnu.helpers"):
+                logging.getLogger(name).disabled = True
+        elif amb["logging"] == "level>CRITICAL":
+            logging.getLogger().setLevel(logging.CRITICAL + 10)
+            for name in ("sketchnu", "sketchnu.helpers"):
+                logging.getLogger(name).setLevel(logging.CRITICAL + 10)
+    if amb.get("cwd"):
+        os.chdir(work)
     src = (it for it in items) if case.get("as_generator") else items
     out = {"pid": os.getpid()}
     t0 = time.time()
